@@ -1103,7 +1103,8 @@ def extra_c09(seed, tier, log):
     init = np.array([1.0, 2.5, 1234.5678, 0.0])
     fns = [(0, rfm.linear_recovery), (1, rfm.convexe_recovery), (2, rfm.convexe_recovery_scaled)]
     failures, evals = [], 0
-    taus = [1, 2, 3, 5, 10, 40] if tier == "quick" else [1, 2, 3, 4, 5, 7, 10, 20, 40, 90]
+    # (the model's power is a plain product of canonical rationals: exponents beyond ~350 take minutes in vm_compute)
+    taus = [1, 2, 3, 5, 10, 40] if tier == "quick" else [1, 2, 3, 4, 5, 6, 7, 8, 10, 15, 20, 30, 40]
     for which, fn in fns:
         for tau in taus:
             for e in sorted(set([0, 1, 2, tau - 1, tau, tau + 1, tau + 5, 2 * tau])):
